@@ -227,6 +227,10 @@ def classify_failure(world, calls, ex, why):
     return "outcome-state-combination-unreachable"
 
 
+PUBLISH_KINDS = {"rename", "replace", "open:w", "os.open:w", "f.write", "f.writelines", "f.truncate", "f.flush", "flock", "f.close",
+                 "link", "symlink", "sendfile"}
+
+
 def _fs_events(ex):
     for n, e in enumerate(ex.log):
         if len(e) >= 4 and e[1] == "fs":
@@ -246,7 +250,10 @@ def _stale_probe_phase(world, ti, ex, cid):
             data = n
         if kind in ("rename", "replace", "remove", "unlink") and paths and paths[0] == objrel:
             removed, remover = n, t
-        if t == ti and paths and paths[-1].startswith("refs" + os.sep):
+        # tagging = PUBLISHING references: writes to / renames into refs/pids or refs/cids (creating shard
+        # directories or temp files under refs/ is only preparation, and refactorings may move it around)
+        if t == ti and paths and kind in PUBLISH_KINDS and (paths[-1].startswith(os.path.join("refs", "pids") + os.sep)
+                                                            or paths[-1].startswith(os.path.join("refs", "cids") + os.sep)):
             if refs_first is None:
                 refs_first = n
             refs_last = n
